@@ -939,6 +939,9 @@ public:
   /// Emit the binary.
   void emitBin(std::string outputFilename) {
     std::fstream outputFile(outputFilename, std::ios::out | std::ios::binary);
+    if (!outputFile.is_open()) {
+      throw std::runtime_error("could not open output file");
+    }
     // The first four bytes are the remaining binary size.
     uint32_t programSizeWords = programSizeBytes >> 2;
     outputFile.write(reinterpret_cast<const char*>(&programSizeWords), sizeof(uint32_t));
